@@ -1210,6 +1210,15 @@ theorem trans_C04_C07_setPartitionId_v2 (r : T_v2_sharedResource) (i : Nat) (hi 
   have : ¬ i = j := fun h => hj h.symm
   simp [this]
 
+/-- the end of v1 `Provision`: `count` free partitions, and the phase becomes provisioned WHATEVER creating the
+partition blobs answered - its error is handed to the caller, but a following `Start` is accepted (the lease scenarios
+with `partErr` exercise exactly this) -/
+theorem trans_C17_provisionTail_v1 (ph : Int) (ps : List Bool) (count : Nat) (e : String) :
+    v1_sr_provisionTail { phase := ph, partitions := ps } count e =
+      ({ phase := 1, partitions := List.replicate count false }, e) ∧
+    v1_sr_startHead ⟨(v1_sr_provisionTail { phase := ph, partitions := ps } count e).1.phase⟩ = "" := by
+  simp [v1_sr_provisionTail, v1_sr_startHead]
+
 /-! ### non-vacuity: the translated functions on concrete values (also a readable trace of what they compute) -/
 
 example : v2_incTarget ⟨7⟩ 5 = ⟨12⟩ ∧ v2_incTarget ⟨7⟩ (-5) = ⟨2⟩ ∧ v2_incTarget ⟨7⟩ (-9) = ⟨0⟩ ∧ v2_incTarget ⟨7⟩ 0 = ⟨7⟩ := by decide
